@@ -32,9 +32,10 @@ def r_C33a(root):
     from sa import pyeval
     import itertools
     fn = find_i(root, "textx/metamodel.py", "TextXMetaModel.process")
-    gl = find(load(root, "textx/model.py"), "get_location")
-    ret = [s for s in gl.body if isinstance(s, ast.Return)][0].value
-    keys = [k.value for k in ret.keys]
+    from sa.rules.b7 import eval_get_location
+    loc_, _log = eval_get_location(root)
+    if not isinstance(loc_, dict): raise AnalysisError("get_location does not yield a dict under evaluation: %r" % (loc_,))
+    keys = list(loc_)
     out = []; inst = 0
     tr = next((n for n in fn.body if isinstance(n, ast.Try)), None)
     if tr is None or not tr.handlers: raise AnalysisError("TextXMetaModel.process: try/except around the processor call not found")
